@@ -491,6 +491,7 @@ func (a *analysis) write(i ssa.Instruction, what string, addr ssa.Value, cacheOn
 		a.effects[effect{fn, in, path, kUnknown, 0}] = true
 		return
 	}
+	emitted := 0
 	for o := range s {
 		ob := a.objs[o]
 		k := ob.kind
@@ -501,6 +502,10 @@ func (a *analysis) write(i ssa.Instruction, what string, addr ssa.Value, cacheOn
 			k = kLibCache
 		}
 		a.effects[effect{fn, in, path, k, ob.idx}] = true
+		emitted++
+	}
+	if emitted == 0 {
+		a.effects[effect{fn, in, path, kUnknown, 0}] = true // never drop a write
 	}
 }
 
